@@ -35,7 +35,11 @@ fn eq(a: &Raw, b: &Raw) -> bool {
 /// other threads (1, then 2) are queued in wait() in FIFO order: they have
 /// released the mutex and are parked (Blocked, no pending operation).
 fn world(q: usize) -> (crate::rt::Execution, Condvar) {
-    let mut e = ev::mk_exec(3, 1, None);
+    world_n(q, 3)
+}
+
+fn world_n(q: usize, n: usize) -> (crate::rt::Execution, Condvar) {
+    let mut e = ev::mk_exec(n, 1, None);
     tv::activate(&mut e.threads, 0);
     let mut st = State { last_access: None, waiters: VecDeque::new() };
     let mut t = 1;
@@ -46,7 +50,7 @@ fn world(q: usize) -> (crate::rt::Execution, Condvar) {
     }
     let r = e.objects.insert(st);
     let mut t = 0;
-    while t < 3 {
+    while t < n {
         let c: Raw = kani::any();
         tv::th(&mut e.threads, t).causality = vv(c);
         t += 1;
@@ -117,4 +121,23 @@ vharness! {
     /// notify_one without waiters wakes nobody and stores nothing (a later wait still blocks).
     #[cfg_attr(kani, kani::unwind(8))]
     fn condvar_notify_one_none() { notify_case(0, false) }
+}
+
+vharness! {
+    /// @prop C08 @tier thorough @mode fast @cost 3 @timeout 3600 @funcs Condvar::notify_one,Set::unpark @bounds 4 threads, 3 queued waiters (threads 1, 2, 3 in that order), two consecutive notify_one calls
+    /// FIFO with three waiters: two notify_one calls wake the two longest-waiting threads in order and leave the newest waiter queued.
+    #[cfg_attr(kani, kani::unwind(8))]
+    fn condvar_notify_one_twice_of_three() {
+        let (mut e, cv) = world_n(3, 4);
+        sched::enter(&mut e, || cv.notify_one(Location::disabled()));
+        assert!(code_of(&e, 1) == 0 && code_of(&e, 2) == 2 && code_of(&e, 3) == 2);
+        // second notification: same call again (the path needs room for its decision)
+        crate::rt::path::verif::rewind(&mut e.path);
+        sched::enter(&mut e, || cv.notify_one(Location::disabled()));
+        assert!(code_of(&e, 1) == 0 && code_of(&e, 2) == 0 && code_of(&e, 3) == 2);
+        let st = cv.state.get(&e.objects);
+        assert!(st.waiters.len() == 1 && st.waiters[0] == tv::tid(3));
+        kani::cover!(true, "reached");
+        std::mem::forget(e);
+    }
 }
